@@ -1,5 +1,5 @@
 (* C04 -- persistence is faithful or it refuses: never a quietly different object. *)
-From Skv Require Import CodecGuards CodecWitness CodecFacts.
+From Skv Require Import CodecGuards CodecWitness CodecShareFacts CodecFacts CodecRootFacts.
 From Gen Require Import Snapshot.
 
 Definition rt (v : pval) : res pval :=
@@ -21,13 +21,12 @@ Definition C04_faithful_or_refuses_full_statement : Prop :=
    On every generated value with c04_ok the model (by vm_compute) and the implementation are checked to be
    faithful-or-refusing in each run (harness/props/c04.py). *)
 Theorem C04_faithful_or_refuses_partial :
-  forall (D : denv) (F : cfacts) (C : cenv) (files : list (hkey * json)) (base : Z) (v : pval),
+  forall (F : cfacts) (D : denv) (base : Z) (v : pval),
     c04_ok F v = true ->
-    c_namedtuples C = f_namedtuples F /\ c_missing C = f_missing F ->
-    facts_sane F = true -> reg_ok (e_reg (c_env C)) (e_cur (c_env C)) = true ->
-    frag F v = true -> ids_tree D base v = true -> (need v <= default_fuel)%nat ->
-    cycle_state D C files base v = Ok v.
-Proof. intros D F C files base v _. exact (frag_roundtrip D F C files base v). Qed.
+    dn_cur D = Snapshot.current -> facts_sane F = true -> reg_ok Snapshot.registry Snapshot.current = true ->
+    c05_guard F D base v = true ->
+    roundtrip Snapshot.registry Snapshot.current F D base v = Ok v.
+Proof. exact (fun F D base v _ H1 H2 H0 H3 => root_roundtrip_total _ _ F D base v H1 H0 H2 H3). Qed.
 Print Assumptions C04_faithful_or_refuses_partial.
 
 (* kinds registered as unsupported are refused by the dump, wherever they sit at the root *)
